@@ -3,6 +3,7 @@ package main
 // Calls: builtins, library models, contracted callees, inlined callees, abstraction.
 
 import (
+	"os"
 	"fmt"
 	"go/token"
 	"go/types"
@@ -254,6 +255,10 @@ func (tr *FnTr) contractCallInfo(x ssa.Value, f *calleeInfo, ct *FuncContract, a
 		tr.vc.Oblige(tr.prefix+"pre."+name, labelOr(c.Label, i+1), Implies(tr.st.Reach, g), tr.pos(tr.curInstr.Pos()))
 		tr.st.Reach = tr.vc.Def("reach", And(tr.st.Reach, g))
 	}
+	for i, c := range ct.PanicsIf {
+		// the callee panics exactly under this condition: a panic edge of the caller
+		tr.panicEdge("callee."+name+"."+labelOr(c.Label, i+1), Not(ctx.cond(c.E, tr.st.Reach)), tr.curInstr.Pos())
+	}
 	if ct.NoLocks && !tr.top.refute && tr.st.Locks != nil {
 		o, j := tr.vc.Fresh("lk_o", SInt), tr.vc.Fresh("lk_j", SInt)
 		tr.vc.Oblige(tr.prefix+"pre."+name, "nolocks", Implies(tr.st.Reach, Eq(Select(Select(tr.st.Locks, o), j), Int(0))), tr.pos(tr.curInstr.Pos()))
@@ -348,7 +353,16 @@ func (tr *FnTr) contractCallInfo(x ssa.Value, f *calleeInfo, ct *FuncContract, a
 	}
 	pctx.guard = post.Reach
 	for _, c := range ct.Ensures {
-		tr.vc.Assume(Implies(post.Reach, pctx.fact(c.E)))
+		ft := pctx.fact(c.E)
+		if dbg := os.Getenv("GOCV_DEBUG_ENS"); dbg != "" && dbg == name {
+			fmt.Fprintf(os.Stderr, "ENS %s @%s: %s\n   mem=%s\n", name, tr.pos(tr.curInstr.Pos()), truncate(ft.String(), 600), truncate(post.Mem.String(), 600))
+			for _, a := range args {
+				for _, l := range a.L {
+					fmt.Fprintf(os.Stderr, "   arg %s\n", truncate(l.String(), 300))
+				}
+			}
+		}
+		tr.vc.Assume(Implies(post.Reach, ft))
 	}
 	// ...and the callee re-establishes it at every exit (obligation datainv.N of the callee)
 	for _, c := range ct.DataInv {
@@ -438,7 +452,17 @@ func (tr *FnTr) allPrivObjs() []*Term {
 	return tr.top.privObjsAll()
 }
 
-func (tr *FnTr) privObjsAll() []*Term { return tr.privObjs }
+func (tr *FnTr) privObjsAll() []*Term {
+	var out []*Term
+	seen := map[string]bool{}
+	for _, o := range tr.privObjs {
+		if k := o.Key(); !seen[k] && tr.idAllPrivate(o) {
+			seen[k] = true
+			out = append(out, o)
+		}
+	}
+	return out
+}
 
 // computePrivate finds Allocs whose address never escapes to abstracted code.
 func (tr *FnTr) computePrivate() {
